@@ -284,15 +284,15 @@ def enum_pairs(ctx):
                         rng = ctx.rng("pair", tc0, tc1, oe, j)
                         yield {"tc0": tc0, "tc1": tc1, "oe": list(oe), "ctx_a": rng.getrandbits(51), "ctx_b": rng.getrandbits(51), "ctx_addr": rng.getrandbits(24),
                                "t0": rng.choice([0, 1, 5]), "t1": rng.choice([0, 1, 5]), "ref": rng.choice([None, [52.0, 4.0], [-33.0, 151.0]]),
-                               "stamps": rng.choice(["int", "int", "float", "datetime"])}
+                               "stamps": rng.choice(["int", "int", "float", "datetime"]), "hc": rng.choice("ULM")}
 
 
 def chk_pair(c, note):
     def mk(tc, oe, low):
         if tc is None:
-            return frames.tohex(frames.commb(20, c["ctx_addr"], low, 0), 112)
+            return frames.tohex(frames.commb(20, c["ctx_addr"], low, 0), 112, c.get("hc", "U"))
         me = (tc << 51) | (low & ~(1 << 34)) | (oe << 34)
-        return frames.tohex(frames.df17(c["ctx_addr"], me), 112)
+        return frames.tohex(frames.df17(c["ctx_addr"], me), 112, c.get("hc", "U"))
     m0, m1 = mk(c["tc0"], c["oe"][0], c["ctx_a"]), mk(c["tc1"], c["oe"][1], c["ctx_b"])
     ref = tuple(c["ref"]) if c["ref"] else ()
     if c.get("stamps") == "datetime":  # the signature documents int | datetime time stamps
